@@ -82,6 +82,21 @@ class IfHooks(D.DomHooks):
                     return A.TOP
                 state.env.setdefault('__log', []).append('%s#%d' % (args[0].label, k + 1))
                 return seq[k](state)
+            if attr == 'source' and len(args) == 1 and isinstance(node.func.value, ast.Name) and node.func.value.id == 'tex':
+                # tex.source(tokens): the characters of character tokens; truth tokens and other bare tokens have no source text
+                x = args[0]
+                items = D.children(x) if isinstance(x, A.Obj) and D.children(x) is not None else (x if isinstance(x, list) else [x])
+                out = []
+                for t in items:
+                    if isinstance(t, A.TextObj):
+                        out.append(str(t))
+                    elif isinstance(t, A.Obj) and isinstance(t.cls, M.ClassInfo) and t.cls.name in ('_true', '_false'):
+                        out.append('')
+                    elif isinstance(t, A.Obj) and isinstance(t.attrs.get('nodeName'), str):
+                        out.append('\\%s ' % t.attrs['nodeName'])
+                    else:
+                        return A.TOP
+                return ''.join(out)
             if attr == 'pushTokens' and self.dims is not None:
                 return A.NONE
             if attr == 'readDimen' and self.dims is not None:
@@ -366,6 +381,7 @@ def r194(chk, m):
     cases += [('isundefined', {'name': n}, {'known': sw(True)}, None, 'false' if n == 'known' else 'true', '\\isundefined{\\%s}' % n) for n in ('known', 'unknown')]
     cases += [('boolean', {'name': 'flag'}, {'flag': sw(st)}, None, 'true' if st else 'false', '\\boolean{flag} with the switch %s' % st) for st in (True, False)]
     for a, rel, b in ((1.0, '<', 2.0), (2.0, '<', 1.0), (2.0, '>', 1.0), (1.0, '>', 2.0), (1.0, '=', 1.0), (1.0, '=', 2.0), (28.45274, '=', 28.452740000001),
+                      (473628671.99999994, '=', 473628672.0), (1864679.8110236218, '=', 1864679.811023622),
                       (1.0, '<', 1.0), (1.0, '>', 1.0)):
         want = {'<': a < b, '>': a > b, '=': abs(a - b) < 1e-4}[rel]
         cases.append(('lengthtest', {'test': ['tokens']}, None, ((a, b), rel), 'true' if want else 'false', '\\lengthtest{%s %s %s}' % (a, rel, b)))
